@@ -109,3 +109,37 @@ def net_phase(run, num, ops=34, nodes=3, mc=True):
     run.cov["net_op_mix"] = dict(st)
     run.cov["net_nodes"] = nodes
     return behs, st
+
+
+def maybe_replay(run):
+    """--replay FILE: re-execute the recorded program of a violation on the current tree and validate it again."""
+    if not getattr(run, "replay", None):
+        return False
+    rp = json.load(open(run.replay))
+    run.build_harness()
+    driver = rp["driver"]
+    gen = {"xstate-replay": ("Gen_XState.tla", "Gen_XState.cfg"), "engine-replay": ("Gen_Engine.tla", "Gen_Engine.cfg"),
+           "net-replay": ("Gen_Net.tla", "Gen_Net.cfg"), "ledger-replay": None}[driver]
+    args = list(rp.get("driver_args", []))
+    consts = dict(rp.get("consts") or {})
+    if gen:   # the catalogue is exported by the generator module (same constants as the recorded run)
+        gconsts = {k: v for k, v in consts.items() if k in ("AwardSched", "Nodes")}
+        gconsts.update({"MaxOps": 2, "ActiveTxs": ALL_TXS})
+        run.tlc_gen(gen[0], gen[1], 1, 4, name="genR", seed=1, consts=gconsts)
+        cat = os.path.join(run.work, "genR", "catalog.json")
+        if "-catalog" in args:
+            args[args.index("-catalog") + 1] = cat
+    known = {k: KF_DESC.get(k, d) + " [" + d + "]" for k, d in vp.known_keys(run.pid).items()}
+    kf_consts = {k: "TRUE" for k in known if k.startswith("KF_")}
+    for k in OUTSIDE.get(run.pid, []):
+        kf_consts[k] = "TRUE"
+        known.setdefault(k, None)
+    prog = [{k: v for k, v in o.items() if k not in ("tr", "i")} for o in rp["program"]]
+    tracecheck.replay_and_validate(run, [prog], driver=driver, driver_args=args, trace_module=rp["trace_module"],
+                                   trace_cfg=rp["trace_cfg"], consts=consts, name="R",
+                                   kf_consts=(kf_consts or None) if driver != "ledger-replay" else None,
+                                   kf_desc={k: known.get(k) for k in kf_consts})
+    run.samples = [prog]
+    run.cov["replayed_file"] = os.path.basename(run.replay)
+    run.finish()
+    return True
